@@ -245,9 +245,11 @@ def option_table(S):
 BASE = ["verif", "A.txt", "-m", "mae", "-type", "text"]
 
 
-def h_dispatch():
+def h_dispatch(only=None):
     def fn(S):
         opts = option_table(S)
+        if only is not None:
+            opts = [o for o in opts if o[0] in only]
         oi = S.choose("option", len(opts))
         name, words, slots = opts[oi]
         pos = S.choose("position", 3)
